@@ -612,3 +612,38 @@ func (fc *flowCtx) hashableKnown(v ssa.Value, at ssa.Instruction) (bool, string)
 	}
 	return false, ""
 }
+
+// retValue returns the value actually returned as result i: go/ssa spills
+// results through local cells when the function has a defer ("*r = v;
+// rundefers; t = *r; return t"), in which case the value stored in the same
+// block is returned.
+func retValue(ret *ssa.Return, i int) ssa.Value {
+	v := ret.Results[i]
+	ld, ok := v.(*ssa.UnOp)
+	if !ok || ld.Op != token.MUL {
+		return v
+	}
+	al, ok := ld.X.(*ssa.Alloc)
+	if !ok {
+		return v
+	}
+	b := ret.Block()
+	var last ssa.Value
+	for _, ins := range b.Instrs {
+		if ins == ssa.Instruction(ld) {
+			break
+		}
+		if st, ok := ins.(*ssa.Store); ok && st.Addr == al {
+			last = st.Val
+		}
+	}
+	if last != nil {
+		return last
+	}
+	return v
+}
+
+// isRecoverBlock: the synthetic block that returns the named results after a recovered panic.
+func isRecoverBlock(b *ssa.BasicBlock) bool {
+	return b.Parent().Recover == b
+}
